@@ -26,9 +26,9 @@ func init() {
 			"bit-exact comparison: same kernel, same floating-point operations",
 		},
 		Workloads: []core.Workload{
-			{Name: "main", Variant: "plain", N: core.Tiered(41*14, 41*7*4*2*12), Run: c04Main},
-			{Name: "initstates", Variant: "plain", N: core.Tiered(60, 3000), Run: c04InitStates},
-			{Name: "cbacked", Variant: "plain", N: core.Tiered(41*3, 41*60), Run: c04CBacked},
+			{Name: "main", Variant: "plain", N: core.Tiered(41*42, 41*7*4*2*12), Run: c04Main},
+			{Name: "initstates", Variant: "plain", N: core.Tiered(180, 3000), Run: c04InitStates},
+			{Name: "cbacked", Variant: "plain", N: core.Tiered(41*9, 41*60), Run: c04CBacked},
 		},
 	})
 }
